@@ -235,10 +235,12 @@ func c16Collect(p *ana.Prog, r *ana.Result, cm *ssa.Function) {
 		r.Violate("C16.balance", fname, "drain", p.Pos(cm.Pos()), "no drain goroutine: workers still sending after the deadline block forever")
 	} else {
 		okArg := false
-		if len(drain.Call.Args) == 1 {
-			if bo, ok := drain.Call.Args[0].(*ssa.BinOp); ok && bo.Op == token.SUB && bo.Y == ssa.Value(iPhi) {
+		countIdx := -1
+		for ai, a := range drain.Call.Args {
+			if bo, ok := a.(*ssa.BinOp); ok && bo.Op == token.SUB && bo.Y == ssa.Value(iPhi) {
 				if bo.X == nVal || (isLenOf(bo.X) && func() bool { c, _ := ana.CallOf(bo.X); return c.Common().Args[0] == ssa.Value(ms) }()) {
 					okArg = true
+					countIdx = ai
 				}
 			}
 		}
@@ -248,9 +250,22 @@ func c16Collect(p *ana.Prog, r *ana.Result, cm *ssa.Function) {
 			r.Violate("C16.balance", fname, "drain-count", posOf(p, drain), "the drain goroutine is not started with exactly len(ms) - i outstanding results")
 		}
 		if mc, ok := drain.Call.Value.(*ssa.MakeClosure); ok {
-			c16DrainBody(p, r, mc.Fn.(*ssa.Function), msc)
+			c16DrainBody(p, r, mc.Fn.(*ssa.Function), msc, max(countIdx, 0))
+		} else if df, ok := drain.Call.Value.(*ssa.Function); ok && df.Blocks != nil {
+			// a named drain function: the channel it receives from must be the collector's channel
+			chOK := false
+			for _, a := range drain.Call.Args {
+				if chanRoot(a) == chanRoot(msc) || a == ssa.Value(msc) {
+					chOK = true
+				}
+			}
+			if !chOK {
+				r.Violate("C16.balance", fname, "drain-body", posOf(p, drain), "the drain goroutine is not given the collector's channel")
+			} else {
+				c16DrainBody(p, r, df, msc, max(countIdx, 0))
+			}
 		} else {
-			r.Violate("C16.balance", fname, "drain-body", posOf(p, drain), "UNDECIDED: drain goroutine is not a closure")
+			r.Violate("C16.balance", fname, "drain-body", posOf(p, drain), "UNDECIDED: drain goroutine is neither a function literal nor a named function")
 		}
 		// drain is started on every path to return
 		rets := 0
@@ -426,7 +441,7 @@ func selectArm(sel *ssa.Select, idx int) *ssa.BasicBlock {
 	return arm
 }
 
-func c16DrainBody(p *ana.Prog, r *ana.Result, fn *ssa.Function, msc *ssa.Parameter) {
+func c16DrainBody(p *ana.Prog, r *ana.Result, fn *ssa.Function, msc *ssa.Parameter, countIdx int) {
 	fname := ana.FuncName(fn)
 	// for n != 0 { <-msc; n-- }
 	var nPhi *ssa.Phi
@@ -464,7 +479,7 @@ func c16DrainBody(p *ana.Prog, r *ana.Result, fn *ssa.Function, msc *ssa.Paramet
 	startsAtParam := false
 	if nPhi != nil {
 		for _, e := range nPhi.Edges {
-			if pr, ok := e.(*ssa.Parameter); ok && pr == fn.Params[0] {
+			if pr, ok := e.(*ssa.Parameter); ok && countIdx < len(fn.Params) && pr == fn.Params[countIdx] {
 				startsAtParam = true
 			}
 		}
@@ -558,18 +573,12 @@ func c16Measure(p *ana.Prog, r *ana.Result, mo, cm *ssa.Function) {
 		g := gos[0]
 		// spawn count: the go is in a loop whose trip count is len(refclks): its block is dominated by a header comparing an index phi with len(refclks)
 		rangeOK := false
-		ana.IfEdges(mo, func(iff *ssa.If, b *ssa.BasicBlock) {
-			c, _, isCmp := ana.AsCmp(iff.Cond)
-			if !isCmp || c.Op != token.LSS {
-				return
+		if bnd, ok := loopBound(mo, g.Block()); ok && isLenOf(bnd) {
+			call, _ := ana.CallOf(bnd)
+			if pr, ok := call.Common().Args[0].(*ssa.Parameter); ok && pr.Name() == "refclks" {
+				rangeOK = true
 			}
-			if isLenOf(c.Y) {
-				call, _ := ana.CallOf(c.Y)
-				if pr, ok := call.Common().Args[0].(*ssa.Parameter); ok && pr.Name() == "refclks" && b.Succs[0].Dominates(g.Block()) || b.Succs[0] == g.Block() {
-					rangeOK = true
-				}
-			}
-		})
+		}
 		// no conditional around the go inside the loop body: the go's block is the loop body block itself (single path)
 		if rangeOK {
 			r.Ok("C16.balance", fname, "one-worker-per-clock", posOf(p, g), "one goroutine is started per element of refclks")
@@ -596,7 +605,11 @@ func c16Measure(p *ana.Prog, r *ana.Result, mo, cm *ssa.Function) {
 	}
 	old, _ := ana.ConstInt(cas.Call.Args[1])
 	nw, _ := ana.ConstInt(cas.Call.Args[2])
-	okCAS := old == 0 && nw == 1 && strings.HasSuffix(ana.AccessPath(cas.Call.Args[0]), "numOpsInProgress")
+	casAddr := cas.Call.Args[0]
+	if u := ana.UniqueReaching(mo, casAddr); u != nil {
+		casAddr = u
+	}
+	okCAS := old == 0 && nw == 1 && strings.HasSuffix(ana.AccessPath(casAddr), "numOpsInProgress")
 	// before any go / collect: cas dominates them; failure arm panics
 	domOK := true
 	for _, g := range gos {
